@@ -5,6 +5,7 @@ import (
 	"go/token"
 	"go/types"
 	"math/big"
+	"regexp"
 	"sort"
 	"strings"
 
@@ -519,8 +520,28 @@ func (vc *VC) enterLoop(fr *Frame, li *loopInfo) {
 			if _, known := vc.compSort[k]; !known {
 				continue
 			}
-			hst.heap.known[k] = vc.declFresh(k+"!loop", vc.compSort[k])
 			vc.written[k] = true
+			// per-reference havoc when every write of the loop goes to references that exist before the loop
+			if refs := li.writeRefs[k]; len(refs) > 0 && vc.compSort[k].K == SArray && (strings.HasPrefix(k, "A:") || strings.HasPrefix(k, "P:") || strings.HasPrefix(k, "M:")) {
+				stable := true
+				var rl []string
+				for r := range refs {
+					if r == "*" || !stableTerm(r, li.preText) {
+						stable = false
+					}
+					rl = append(rl, r)
+				}
+				if stable {
+					sort.Strings(rl)
+					cur := vc.heapGet(hst.heap, k)
+					for _, r := range rl {
+						cur = tStore(cur, mk(r, sortRef), vc.declFresh(k+"!loopobj", vc.compSort[k].Elem))
+					}
+					hst.heap.known[k] = vc.define(k+"!loop", cur)
+					continue
+				}
+			}
+			hst.heap.known[k] = vc.declFresh(k+"!loop", vc.compSort[k])
 		}
 		if len(ks) > 0 {
 			nt := vc.declFresh("top", sortRef)
@@ -567,6 +588,8 @@ func (vc *VC) loopWrites(fr *Frame, li *loopInfo, est *State) (map[string]bool, 
 	outLen, oblLen := len(vc.out), len(vc.obls)
 	errLen := len(vc.errs)
 	savedWritten, savedAll := vc.written, vc.writeAll
+	savedRefs := vc.writtenRefs
+	vc.writtenRefs = map[string]map[string]bool{}
 	savedCnt := map[string]int{}
 	for k, v := range vc.oblCnt {
 		savedCnt[k] = v
@@ -616,7 +639,16 @@ func (vc *VC) loopWrites(fr *Frame, li *loopInfo, est *State) (map[string]bool, 
 		vc.runBlock(fr, b)
 	}
 	written, all := vc.written, vc.writeAll
+	li.writeRefs = vc.writtenRefs
 	// restore
+	vc.writtenRefs = savedRefs
+	for comp, rs := range li.writeRefs {
+		for r := range rs {
+			vc.noteWriteRef(comp, r)
+		}
+	}
+	preText := strings.Join(vc.out[:outLen], "\n") + strings.Join(vc.constDecls, "\n")
+	li.preText = preText
 	vc.dry--
 	vc.out = vc.out[:outLen]
 	vc.obls = vc.obls[:oblLen]
@@ -680,4 +712,17 @@ func (vc *VC) checkBackEdge(fr *Frame, li *loopInfo, from *ssa.BasicBlock) {
 		}
 		vc.oblige(st, fr, "decreases", fmt.Sprintf("loop%d", li.ordinal), goal, spec.Decreases.Src, from.Instrs[len(from.Instrs)-1].Pos())
 	}
+}
+
+var identRe = regexp.MustCompile(`\|[^|]+\|`)
+
+// stableTerm: every quoted identifier of the term is declared before the loop (so it denotes the same
+// value in every iteration).
+func stableTerm(t string, preText string) bool {
+	for _, id := range identRe.FindAllString(t, -1) {
+		if !strings.Contains(preText, "(declare-const "+id+" ") {
+			return false
+		}
+	}
+	return true
 }
